@@ -73,10 +73,10 @@ reg('C17', 'harness.keys', design_ref='6/C17',
     bounds={'quick': '24 shapes x ignore specifications (<= 3 elements) x 5 keymaps: the key of one call computed under two independent symbolic iteration orders of every set built in klepto._inspect/klepto.keymaps; session scenario: session 1 has first computed the key of a call that differs only in the type of an equal argument (1 / 1.0 / True), session 2 is fresh (every mutable module-level container of klepto reset, python hash() values differ): key and dir_archive entry name must agree; entry name of 11 concrete key witnesses (path separators, blanks, pickled bytes, ints, tuples) in two sessions',
             'thorough': 'all shapes x all specifications x 8 keymaps'},
     outside='that archived results are then found by a later OS process (C04, excluded there); process state kept anywhere else than in set iteration order, python hash() values, keyword order and mutable module-level containers / lru_cache wrappers of the klepto modules (e.g. closure cells)',
-    stubs=KEY_STUBS + ['name `set` in klepto._inspect / klepto.keymaps -> set subclass with symbolic iteration order (set displays would bypass it; none occur in the anchored code)'],
+    stubs=KEY_STUBS + ['names `set`/`frozenset` in klepto._inspect / klepto.keymaps / klepto._archives, and the set constants those modules built at import -> subclasses with symbolic iteration order: every permutation up to 4 elements, the family {sorted, reversed, rotated, odd-first} above (set displays would bypass it; none occur in the anchored code)', 'python hash() -> injective wrapper tagged with the simulated session'],
     assumptions=KEY_ASSUME, expect_labels=['C17:stable'])
 reg('C12', 'harness.rounding', design_ref='6/C12',
-    bounds={'quick': '16 argument structures (scalar, list, tuple, set, frozenset, dict with str / non-str keys, two levels of nesting, range, bytes, str, None, namedtuple, empty list) x {simple, deep} x {inf_cache std+safe, lru_cache, klepto.keygen} + standalone simple/shallow/deep_round; every leaf has a symbolic dynamic type in {float,int,str} and a symbolic value; tol is a symbolic unbounded Int or None',
+    bounds={'quick': '19 argument structures (scalar, list, tuple, set, frozenset, dict with str / non-str keys, two levels of nesting, range, bytes, str, None, namedtuple, empty list, one container object referenced twice: in a list, in a dict, as two arguments) x {simple, deep} x {inf_cache std+safe, lru_cache, klepto.keygen} + standalone simple/shallow/deep_round; every leaf has a symbolic dynamic type in {float,int,str} and a symbolic value; tol is a symbolic unbounded Int or None',
             'thorough': 'same structures through all 12 cache decorators + keygen; standalone decorators also with tol=None'},
     outside="numeric behaviour of Python's round (abstracted as uninterpreted R on both sides); nesting deeper than 2; structures outside the family (generators, numpy arrays)",
     stubs=['round(leaf, tol) -> uninterpreted R(leaf, tol) via Leaf.__round__', 'klepto.crypto str/repr stubs for the stringmap configuration'],
@@ -131,7 +131,7 @@ reg('C19', 'harness.validate', design_ref='6/C19',
 reg('C13', 'harness.crash', design_ref='6/C13',
     bounds={'quick': 'file(pickle/json), dir(pickle/json/fast), sqltable(db file) archives with 2 prior entries; one operation from {set new key, overwrite, setdefault, update of 2 keys, del, pop, clear, cache.dump of 2 entries, re-open, re-open with a seeding dict}; written data reaches the file at write() or only at flush/close (symbolic choice: large vs small data); the crash index is a symbolic Int over every mutating system call of the operation (create/truncate, each write chunk, close, mkdir, rename, unlink, rmdir); then a fresh handle runs len/keys/items/getitem/cache.load',
             'thorough': 'prior store of 0, 1 or 2 entries (symbolic)'},
-    outside='power loss / un-synced data (kill -9 semantics: completed system calls persist); crashes inside a sqlite call (journal recovery is sqlite C code) - sqlite crash points are between the real execute/commit calls; serialized=False, compression/memmap internals, HDF; more than one operation per run',
+    outside='power loss / un-synced data (kill -9 semantics: completed system calls persist); crashes inside a sqlite call (journal recovery is sqlite C code) - sqlite crash points are between the real execute/commit calls (symbolically on a scratch database; confirmed by killing a real writer process before its n-th execute/commit); serialized=False, compression/memmap internals, HDF; more than one operation per run',
     stubs=[], assumptions=['values are atoms; keys are the concrete a, b, c', 'multi-chunk writes: the serializer stub issues a header and a body chunk so that a prefix can be on disk'],
     expect_labels=['C13:old-or-new', 'C13:untouched', 'C13:len', 'C13:load'])
 REGISTRY['C13']['stubs'] = _arch_stubs() + ['crash = freeze of the model at a symbolic system-call index (BaseException at every later syscall of the dying writer)']
